@@ -164,3 +164,42 @@ Section Agree.
     rewrite (IH _ _ _ _ _ F). exact H.
   Qed.
 End Agree.
+
+(* decorating the delivered messages keeps the parser laws *)
+Section MapMsg.
+  Variables (S M M' : Type).
+  Variable p : S -> bytes -> step N S M err.
+  Variable g : M -> M'.
+  Let q := fun s x => step_map g (p s x).
+
+  Lemma map_stable :
+    (forall s x m s' r y, p s x = Frame m s' r -> p s (x ++ y) = Frame m s' (r ++ y)) ->
+    forall s x m s' r y, q s x = Frame m s' r -> q s (x ++ y) = Frame m s' (r ++ y).
+  Proof.
+    intros H s x m s' r y E. unfold q in *. destruct (p s x) as [|e|m0 s0 r0] eqn:P; try discriminate.
+    rewrite (H _ _ _ _ _ y P). cbn in *. now inversion E.
+  Qed.
+
+  Lemma map_progress :
+    (forall s x m s' r, p s x = Frame m s' r -> (length r < length x)%nat) ->
+    forall s x m s' r, q s x = Frame m s' r -> (length r < length x)%nat.
+  Proof.
+    intros H s x m s' r E. unfold q in *. destruct (p s x) as [|e|m0 s0 r0] eqn:P; try discriminate.
+    cbn in E. inversion E; subst. eapply H; eauto.
+  Qed.
+
+  Lemma map_failpfx :
+    (forall s x y e, p s x = Fail e -> exists e', p s (x ++ y) = Fail e') ->
+    forall s x y e, q s x = Fail e -> exists e', q s (x ++ y) = Fail e'.
+  Proof.
+    intros H s x y e E. unfold q in *. destruct (p s x) as [|e0|m0 s0 r0] eqn:P; try discriminate.
+    destruct (H _ _ y _ P) as [e' E']. rewrite E'. cbn. eauto.
+  Qed.
+End MapMsg.
+
+Lemma map_agree {S M M'} (p p' : S -> bytes -> step N S M err) (g : M -> M') :
+  (forall s x, (forall e, p' s x <> Fail e) -> p s x = p' s x) ->
+  forall s x, (forall e, step_map g (p' s x) <> Fail e) -> step_map g (p s x) = step_map g (p' s x).
+Proof.
+  intros H s x NF. rewrite H; [reflexivity|]. intros e E. rewrite E in NF. eapply NF. reflexivity.
+Qed.
